@@ -235,7 +235,10 @@ def _mer_case(draw, tier):
     costs = draw(st.sampled_from([[1.0, 1.0, 1.0], [v, v, v]]))
     return {
         "N": N, "M": Msamp, "R": R, "H": H, "A": A, "eos": eos, "ref3": ref3, "refs": refs, "hyps": hyps,
-        "log_probs": [[draw(_LOGP) for _ in range(Msamp)] for _ in range(N)],
+        # sequence log-probabilities are routinely in the hundreds below zero: per-row offsets
+        "log_probs": [[x + off for x in rowv] for rowv, off in zip(
+            [[draw(_LOGP) for _ in range(Msamp)] for _ in range(N)],
+            [draw(st.sampled_from([0.0, 0.0, -20.0, -90.0, -120.0, -300.0, -1000.0, -20000.0])) for _ in range(N)])],
         "costs": costs, "include_eos": draw(st.booleans()), "norm": draw(st.booleans()),
         "sub_avg": draw(st.booleans()), "batch_first": draw(st.booleans()),
         "reduction": draw(st.sampled_from(["none", "sum", "mean"])),
@@ -245,7 +248,7 @@ def _mer_case(draw, tier):
 
 @subcheck("C02", "mer_loss", lambda tier: _mer_case(tier), 1200, 25000,
           doc="minimum_error_rate_loss (equal costs, where the error rate is unique): softmax(log_probs) * (er - mean er) by scalar arithmetic; 2-D and 3-D refs, both layouts, every reduction",
-          required_classes=["ref3", "ref2", "sub_avg", "reduction_none", "reduction_sum", "reduction_mean"])
+          required_classes=["ref3", "ref2", "sub_avg", "reduction_none", "reduction_sum", "reduction_mean", "very_negative_log_probs"])
 def _mer_loss(case):
     import torch
 
@@ -314,5 +317,39 @@ def _mer_loss(case):
         cl.append("empty_ref")
     if eos is not None:
         cl.append("eos_set")
+    if min(min(rowv) for rowv in case["log_probs"]) < -100:
+        cl.append("very_negative_log_probs")
     distinct_er = len(set(round(x, 9) for x in flat)) > 1
     return Info(nontrivial=distinct_er, classes=cl)
+
+
+# ------------------------------------------------------------ long structured pairs
+
+
+@st.composite
+def _long_case(draw, tier):
+    return {
+        "b": draw(G.long_batch(tier)),
+        "costs": draw(G.dyadic_costs(force_ties=True)),
+        "include_eos": draw(st.booleans()),
+        "norm": draw(st.booleans()),
+        "batch_first": draw(st.booleans()),
+        "exclude_last": draw(st.booleans()),
+        "padding": -1,
+        "entry": "function",
+        "which": draw(st.sampled_from(["er", "er", "prefix"])),
+    }
+
+
+@subcheck("C02", "long_pairs", lambda tier: _long_case(tier), 400, 6000,
+          doc="references of 10..40 (thorough ..100) tokens and hypotheses derived by edit runs: same all-optimal-alignments bounds",
+          required_classes=["len_ge_16", "len_ge_32"])
+def _long_pairs(case):
+    info = _er_bounds(case) if case["which"] == "er" else _prefix_er_bounds(case)
+    m = max(len(r) for r in case["b"]["refs"])
+    if m >= 16:
+        info.classes.append("len_ge_16")
+    if m >= 32:
+        info.classes.append("len_ge_32")
+    info.nontrivial = True
+    return info
